@@ -165,7 +165,7 @@ theorem good_kw (c : Array Nat) (o : Nat) (hlt : o < c.size) (v : JVal) (ks : Li
   · exact good_pure _ _ _ _ m2 (by omega) (by omega)
   · exact good_pure _ _ _ _ (Nat.le_refl _) (by omega) (by omega)
 
-theorem parseValue_step (d : Deps) (hd : DepsSafe d) (c : Array Nat) (fuel : Nat)
+theorem parseValue_step (d : Deps) (hd : DepsSafe d) (c : Array Nat) (hsz : c.size < 2 ^ 32) (fuel : Nat)
     (ihA : ∀ o, o ≤ c.size → needC c.size o ≤ fuel → GoodL c.size o (parseArray d c fuel o))
     (ihO : ∀ o, o ≤ c.size → needC c.size o ≤ fuel → GoodL c.size o (parseObject d c fuel o)) :
     ∀ o, o ≤ c.size → needV c.size o ≤ fuel + 1 → Good c.size o (parseValue d c (fuel + 1) o) := by
@@ -197,7 +197,7 @@ theorem parseValue_step (d : Deps) (hd : DepsSafe d) (c : Array Nat) (fuel : Nat
             · exact good_kw c o (by omega) _ _
             · split
               · exact good_kw c o (by omega) _ _
-              · obtain ⟨r, hr, hk⟩ := hd.strToNum_ok c o (by omega)
+              · obtain ⟨r, hr, hk⟩ := hd.strToNum_ok c o hsz (by omega)
                 rw [hr]
                 simp only []
                 split
@@ -207,7 +207,7 @@ theorem parseValue_step (d : Deps) (hd : DepsSafe d) (c : Array Nat) (fuel : Nat
                 · exact good_pure _ _ _ _ (Nat.le_refl _) (by omega) (by omega)
 
 /-- All five routines run to completion inside the buffer when given enough fuel. -/
-theorem all_good (d : Deps) (hd : DepsSafe d) (c : Array Nat) : ∀ fuel,
+theorem all_good (d : Deps) (hd : DepsSafe d) (c : Array Nat) (hsz : c.size < 2 ^ 32) : ∀ fuel,
     (∀ o, o ≤ c.size → needV c.size o ≤ fuel → Good c.size o (parseValue d c fuel o)) ∧
     (∀ o, o ≤ c.size → needC c.size o ≤ fuel → GoodL c.size o (parseArray d c fuel o)) ∧
     (∀ o, o ≤ c.size → needC c.size o ≤ fuel → GoodL c.size o (parseObject d c fuel o)) ∧
@@ -219,18 +219,18 @@ theorem all_good (d : Deps) (hd : DepsSafe d) (c : Array Nat) : ∀ fuel,
     refine ⟨?_, ?_, ?_, ?_, ?_⟩ <;> intros <;> simp [needV, needC, needL] at *
   | succ fuel ih =>
     obtain ⟨ihV, ihA, ihO, ihAL, ihOL⟩ := ih
-    exact ⟨parseValue_step d hd c fuel ihA ihO, parseArray_step d c fuel ihAL,
+    exact ⟨parseValue_step d hd c hsz fuel ihA ihO, parseArray_step d c fuel ihAL,
       parseObject_step d c fuel ihOL, arrLoop_step d c fuel ihV ihAL, objLoop_step d hd c fuel ihV ihOL⟩
 
 /-- C05 core: for every input and every pair of helper routines satisfying `DepsSafe`, the
 parser returns a value — it never reads outside `[0, length)` and never runs out of fuel. -/
-theorem parse_no_fault (d : Deps) (hd : DepsSafe d) (c : Array Nat) : ∃ v, parse d c = .ok v := by
+theorem parse_no_fault (d : Deps) (hd : DepsSafe d) (c : Array Nat) (hsz : c.size < 2 ^ 32) : ∃ v, parse d c = .ok v := by
   unfold parse
   simp only []
   split
   · exact ⟨_, rfl⟩
   · have t1 := trimLeft_le c 0 (Nat.zero_le _)
-    obtain ⟨v, o', h, _, _, _⟩ := (all_good d hd c (fuelFor c)).1 (trimLeft c 0) t1 (by unfold needV fuelFor; omega)
+    obtain ⟨v, o', h, _, _, _⟩ := (all_good d hd c hsz (fuelFor c)).1 (trimLeft c 0) t1 (by unfold needV fuelFor; omega)
     rw [h]
     simp only [bind, Except.bind]
     split <;> exact ⟨_, rfl⟩
